@@ -40,32 +40,56 @@ def load_rules(path):
         for c in n.get('inner',[]): fvisit(c)
     for o in objs: fvisit(o)
     rules['__functions__']=funcs
+    # variable templates (constexpr bool/size_t ... = expr;) from clang's pretty printer, if the driver produced it
+    vart={}
+    pp=path+'.print'
+    import os
+    if os.path.exists(pp):
+        for m in re.finditer(r'template <([^>]*)>\s*(?:inline\s+)?(?:static\s+)?constexpr\s+([\w:]+(?:\s+\w+)*?)\s+(\w+)\s*=\s*(.*);\s*$', open(pp).read(), re.M):
+            params=[]
+            for prm in m.group(1).split(','):
+                prm=prm.strip()
+                if not prm: continue
+                pack='...' in prm
+                params.append((prm.replace('...',' ').split()[-1],pack))
+            vart[m.group(3)]={'params':params,'type':m.group(2).strip(),'init':m.group(4).strip()}
+    rules['__vartemplates__']=vart
     return rules
 
 TOK=re.compile(r'\s*(?:(?P<op> (?:<=|>=|==|!=|<|>) )|(?P<id>[A-Za-z_][\w]*(?:::[A-Za-z_][\w]*)*)|(?P<num>\d+)|(?P<dots>\.\.\.)|(?P<p>[<>,()]))')
 def tokenize(s):
     out=[]; i=0
     while i < len(s):
-        m=re.compile(r'(?P<op> (?:<=|>=|==|!=|<|>|&&|\|\||\+|-|\*|/|%) )|\s+|(?P<id>[A-Za-z_]\w*(?:::[A-Za-z_]\w*)*)|(?P<num>\d+)(?:[uU]?[lL]{0,2})|(?P<dots>\.\.\.)|(?P<p>::|[<>,()!])').match(s,i)
+        m=re.compile(r'(?P<op> (?:<=|>=|==|!=|<|>|&&|\|\||\+|-|\*|/|%) )|\s+|(?P<sizeof>sizeof\.\.\.)|(?P<id>[A-Za-z_]\w*(?:::[A-Za-z_]\w*)*)|(?P<num>\d+)(?:[uU]?[lL]{0,2})|(?P<dots>\.\.\.)|(?P<p>::|[<>,()!])').match(s,i)
         if not m: raise SyntaxError(s[i:i+30])
         i=m.end()
-        for k in ('op','id','num','dots','p'):
+        for k in ('op','sizeof','id','num','dots','p'):
             if m.group(k): out.append((k,m.group(k).strip())); break
     return out
 class P:
     def __init__(s,toks): s.t=toks; s.i=0
     def peek(s): return s.t[s.i] if s.i < len(s.t) else ('eof','')
     def next(s): x=s.peek(); s.i+=1; return x
-    def expr(s):   # template-argument expression / type
+    PREC={'||':1,'&&':2,'==':3,'!=':3,'<':4,'>':4,'<=':4,'>=':4,'+':5,'-':5,'*':6,'/':6,'%':6}
+    def expr(s,minp=0):   # template-argument expression / type; precedence climbing over the spaced operators
         lhs=s.primary()
-        while s.peek()[0]=='op':
-            op=s.next()[1]; rhs=s.primary(); lhs=('bin',op,lhs,rhs)    # left-assoc, no precedence: clang prints parentheses where needed
-        if s.peek()[0]=='dots': s.next(); lhs=('expand',lhs)
+        while s.peek()[0]=='op' and s.PREC[s.peek()[1]]>=minp:
+            # a fold "(pattern op ...)" ends here: leave the operator for the fold parser
+            if s.i+1 < len(s.t) and s.t[s.i+1][0]=='dots' and s.i+2 < len(s.t) and s.t[s.i+2]==('p',')'): break
+            op=s.next()[1]; rhs=s.expr(s.PREC[op]+1); lhs=('bin',op,lhs,rhs)
+        if s.peek()[0]=='dots' and minp==0 and not (s.i+1 < len(s.t) and s.t[s.i+1][0]=='op'): s.next(); lhs=('expand',lhs)
         return lhs
     def primary(s):
         k,v=s.next()
         if (k,v)==('p','('):
-            e=s.expr(); assert s.next()==('p',')'); return e
+            if s.peek()[0]=='dots':      # left fold ( ... op pattern )
+                s.next(); op=s.next()[1]; e=s.expr(); assert s.next()==('p',')'); return ('fold',op,e)
+            e=s.expr()
+            if s.peek()[0]=='op' and s.i+1 < len(s.t) and s.t[s.i+1][0]=='dots':      # right fold ( pattern op ... )
+                op=s.next()[1]; s.next(); assert s.next()==('p',')'); return ('fold',op,e)
+            assert s.next()==('p',')'); return e
+        if k=='sizeof':
+            assert s.next()==('p','('); nm=s.next()[1]; assert s.next()==('p',')'); return ('packsize',nm)
         if (k,v)==('p','!'):
             return ('not',s.primary())
         if k=='num': return ('num',int(v))
@@ -121,6 +145,8 @@ class Ev:
                     if a[0]=='expand': elems+=env[a[1][1]]
                     else: elems.append(s.elem(a,env))
                 return [(pc,('seq',elems))]
+            if nm=='bool_constant': return [(pc,('bool',s.cond(node[2][0],env)))]
+            if nm=='integral_constant' and node[2][0]==('name','bool'): return [(pc,('bool',s.cond(node[2][1],env)))]
             if nm=='integral_constant': return [(pc,('ic',s.elem(node[2][1],env)))]
             if nm=='conditional_t':
                 c=s.cond(node[2][0],env); out=[]
@@ -149,6 +175,7 @@ class Ev:
             return out
         if k=='name':
             if s.norm(node[1])=='false_type': return [(pc,('bool',BoolVal(False)))]
+            if s.norm(node[1])=='true_type': return [(pc,('bool',BoolVal(True)))]
         raise Exception(f'ev {node}')
     # ---- typed scalars: (term, bits, signed) ; comparisons / logic give z3 Bools
     TYPES={'int':(32,True),'unsigned int':(32,False),'unsigned':(32,False),'long':(64,True),'unsigned long':(64,False),
@@ -198,11 +225,61 @@ class Ev:
             return v if isinstance(v,(tuple,BoolRef)) else (v,64,False)
         if k=='not': return Not(s.truth(s.scalar(node[1],env)))
         if k=='bin': return s.binop(node[1],s.scalar(node[2],env),s.scalar(node[3],env))
+        if k=='packsize': return (BitVecVal(len(env[node[1]]),64),64,False)
+        if k=='fold':
+            packs=sorted(s.packs_in(node[2],env))
+            if not packs: raise Exception('fold expression without a parameter pack')
+            n=len(env[packs[0]])
+            if any(len(env[q])!=n for q in packs): raise Exception('fold over packs of different lengths')
+            vals=[]
+            for i in range(n):
+                e2=dict(env)
+                for q in packs: e2[q]=env[q][i]
+                vals.append(s.scalar(node[2],e2))
+            op=node[1]
+            if op=='&&': return And([s.truth(v) for v in vals]) if vals else BoolVal(True)
+            if op=='||': return Or([s.truth(v) for v in vals]) if vals else BoolVal(False)
+            if not vals: raise Exception('empty fold over '+op)
+            r=vals[0]
+            for v in vals[1:]: r=s.binop(op,r,v)
+            return r
+        if k=='tmpl':
+            vt=s.rules['__vartemplates__'].get(s.norm(node[1]))
+            if vt is None: raise Exception('template-id used as a value: '+node[1])
+            flat=[]
+            for a in node[2]:
+                if a[0]=='expand':
+                    lst=env[a[1][1]]
+                    if not isinstance(lst,list): raise Exception('expansion of a non-pack')
+                    flat+=[(x,64,False) if not isinstance(x,(tuple,BoolRef)) else x for x in lst]
+                else: flat.append(s.scalar(a,env))
+            e2={}; i=0
+            for nm,pack in vt['params']:
+                if pack: e2[nm]=[s.conv(v,64,False)[0] for v in flat[i:]]; i=len(flat)
+                else:
+                    if i>=len(flat): raise Exception('too few arguments for '+node[1])
+                    e2[nm]=flat[i]; i+=1
+            if i!=len(flat): raise Exception('too many arguments for '+node[1])
+            r=s.scalar(parse(vt['init']),e2)
+            if vt['type'].replace('const ','').strip()=='bool': return s.truth(r)
+            b,sg=s.ty(vt['type']); return s.conv(r,b,sg)
         if k=='call':
             fn=s.rules['__functions__'].get(s.norm(node[1]))
             if fn is None: raise Exception('call to unknown function '+node[1])
             return s.call(fn,[s.scalar(a,env) for a in node[2]])
         raise Exception(f'scalar {node}')
+    def packs_in(s,node,env,acc=None):
+        acc=set() if acc is None else acc
+        if node[0]=='name':
+            if isinstance(env.get(node[1]),list): acc.add(node[1])
+        elif node[0]=='tmpl':
+            for a in node[2]:
+                if a[0]!='expand': s.packs_in(a,env,acc)
+        elif node[0] in('bin',): s.packs_in(node[2],env,acc); s.packs_in(node[3],env,acc)
+        elif node[0] in('not',): s.packs_in(node[1],env,acc)
+        elif node[0]=='call':
+            for a in node[2]: s.packs_in(a,env,acc)
+        return acc
     def elem(s,node,env):
         v=s.scalar(node,env)
         return s.conv(v,64,False)[0]
